@@ -36,7 +36,8 @@ Lemma safe_xls_lbl : forall data, safe (xls_lbl data) (fun _ => True).
 Proof.
   intros data. unfold xls_lbl. destruct (length data <? 14)%nat eqn:E; [exact I|]. apply Nat.ltb_ge in E.
   reads. destruct (length data <? 14 + N.to_nat v0)%nat eqn:E2; [exact I|]. reads.
-  cbv zeta. eapply safe_bind; [apply safe_parse_defined_names|]. intros f _. exact I.
+  cbv zeta. match goal with |- safe (if ?c then _ else _) _ => destruct c; [exact I|] end.
+  eapply safe_bind; [apply safe_parse_defined_names|]. intros f _. exact I.
 Qed.
 
 Lemma safe_xti_chunks : forall fuel cxti rest, safe (xti_chunks fuel cxti rest) (fun _ => True).
@@ -47,9 +48,9 @@ Proof.
   cbv zeta. reads. eapply safe_bind; [apply IH|]. intros tl _. exact I.
 Qed.
 
-Lemma safe_xls_externsheet : forall data, safe (xls_externsheet data) (fun _ => True).
+Lemma safe_xls_externsheet : forall data conts, safe (xls_externsheet data conts) (fun _ => True).
 Proof.
-  intros data. unfold xls_externsheet. destruct (length data <? 2)%nat eqn:E; [exact I|]. apply Nat.ltb_ge in E.
+  intros data conts. unfold xls_externsheet. destruct (length data <? 2)%nat eqn:E; [exact I|]. apply Nat.ltb_ge in E.
   reads. apply safe_xti_chunks.
 Qed.
 
@@ -76,7 +77,7 @@ Proof.
   eapply safe_bind; [|intros l _; exact I].
   apply safe_map_o. intros n. unfold xls_final_name.
   pose proof (no_panic_parse_formula_xls show_f64
-                {| xe_sheets := map quote_sheet_name sheets; xe_names := map fst (fst g); xe_xtis := snd g; xe_base := None |}
+                {| xe_sheets := sheets; xe_names := map fst (fst g); xe_xtis := snd g; xe_base := None |}
                 (frame_xls (snd (snd n)))) as Hp.
   destruct (xls_parse_formula show_f64 _ _); cbn [safe]; auto.
 Qed.
@@ -101,7 +102,7 @@ Section Xlsb.
 Variable show_f64 : N -> list N.
 Variable sheets : list (list N).
 
-Lemma safe_brt_name : forall st payload, safe (brt_name show_f64 st payload) (fun _ => True).
+Lemma safe_brt_name : forall st payload, safe (brt_name st payload) (fun _ => True).
 Proof.
   intros st payload. unfold brt_name. destruct (length payload <? 9)%nat eqn:E; [exact I|]. apply Nat.ltb_ge in E.
   eapply safe_bind; [apply safe_wide_str|]. intros [name sl] Hsl. cbn [snd] in Hsl.
@@ -110,11 +111,15 @@ Proof.
   reads.
   destruct (N.of_nat (length payload) <? N.of_nat (13 + sl) + v) eqn:E3; [exact I|]. apply N.ltb_ge in E3.
   unfold sliceN. destruct (N.of_nat (13 + sl) + v <=? N.of_nat (length payload)) eqn:E4;
-    [|apply N.leb_gt in E4; lia]. cbn [obind].
-  pose proof (no_panic_parse_formula_xlsb show_f64
-                {| be_sheets := ws_ext st; be_names := map fst (ws_names st); be_base := None |}
-                (firstn (N.to_nat v) (skipn (13 + sl) payload))) as Hp.
-  destruct (xlsb_parse_formula show_f64 _ _); cbn [obind safe]; auto.
+    [|apply N.leb_gt in E4; lia]. cbn [obind]. exact I.
+Qed.
+
+Lemma safe_decode_names : forall ext all l, safe (decode_names show_f64 ext all l) (fun _ => True).
+Proof.
+  intros ext all. induction l as [|[n rg] l IH]; [exact I|]. cbn [decode_names].
+  pose proof (no_panic_parse_formula_xlsb show_f64 {| be_sheets := ext; be_names := all; be_base := None |} rg) as Hp.
+  destruct (xlsb_parse_formula show_f64 _ rg); cbn [obind safe]; auto.
+  eapply safe_bind; [exact IH|]. intros r _. exact I.
 Qed.
 
 Lemma safe_brt_extern : forall st payload, safe (brt_extern_sheet sheets st payload) (fun _ => True).
@@ -129,7 +134,7 @@ Proof.
   induction recs as [|[t payload] rest IH]; intros st; [exact I|]. cbn [xlsb_names_loop].
   destruct (t =? 0x016A); [eapply safe_bind; [apply safe_brt_extern|]; intros st' _; apply IH|].
   destruct (t =? 0x0027); [eapply safe_bind; [apply safe_brt_name|]; intros st' _; apply IH|].
-  destruct (is_end_rec t); [exact I|apply IH].
+  destruct (is_end_rec t); [eapply safe_bind; [apply safe_decode_names|]; intros r _; exact I|apply IH].
 Qed.
 
 Theorem no_panic_xlsb_read_names : forall recs, xlsb_read_names show_f64 sheets recs <> Panic.
